@@ -125,6 +125,22 @@ def run(chk, replay=None):
         return c01.do_replay(replay)
     quick = chk.tier == "quick"
     progs = corelib.gen_programs(chk, 120 if quick else 1000, "gdbg", size=30 if quick else 50, focus="dbg")
+    from checks.c08 import Prog
+    twins = [
+        "fn chk_a(x: u8) { assert!(jet::eq_8(x, 16)); }\nfn chk_b(x: u8) { assert!(jet::eq_8(x, 16)); }\nfn main() { chk_a(witness::A); chk_b(witness::B); }",
+        "fn first(o: Option<u8>) -> u8 { let v: u8 = dbg!(unwrap(o)); v }\nfn second(o: Option<u8>) -> u8 { let v: u8 = dbg!(unwrap(o)); v }\nfn main() { let a: u8 = first(witness::A); let b: u8 = second(witness::B); assert!(jet::eq_8(a, b)); }",
+        "fn l1(acc: u8, ctx: (), i: u2) -> Either<u8, u8> { assert!(jet::lt_8(acc, 200)); Right(acc) }\nfn l2(acc: u8, ctx: (), i: u2) -> Either<u8, u8> { assert!(jet::lt_8(acc, 200)); Right(acc) }\nfn main() { let r: Either<u8, u8> = for_while::<l1>(witness::A, ()); let s: Either<u8, u8> = for_while::<l2>(witness::B, ()); }",
+        "fn f1(e: u8, a: u8) -> u8 { assert!(jet::lt_8(e, 9)); a }\nfn f2(e: u8, a: u8) -> u8 { assert!(jet::lt_8(e, 9)); a }\nfn main() { let x: u8 = fold::<f1, 4>(list![1, 2], witness::A); let y: u8 = fold::<f2, 4>(list![1, witness::B], 0); }",
+        "fn same(x: u8) { assert!(jet::eq_8(x, 16)); }\nfn main() { same(witness::A); same(witness::B); same(16); }",
+    ]
+    for i, t in enumerate(twins):
+        wn = sorted(set(re.findall(r"witness::([A-Z])", t)))
+        ty = {"A": ("U", 3), "B": ("U", 3)}
+        if "Option<u8>" in t:
+            ty = {"A": ("O", ("U", 3)), "B": ("O", ("U", 3))}
+        q = Prog(t, [(n, ty[n]) for n in wn], "twin-functions/%d" % i)
+        q.forms = set()
+        progs.append(q)
     acc = corelib.check_terms(chk, progs)
     outcomes = {}
 
